@@ -2,6 +2,7 @@ package verifxfer
 
 import (
 	"fmt"
+	"hash/fnv"
 	"os"
 	"path/filepath"
 	"strings"
@@ -241,6 +242,40 @@ func c06Apply(p *prepared, ps priorState, tm c06Tamper) (string, bool) {
 	return "", false
 }
 
+// c06RepairOnWire reports whether the sender put a frame for the damaged chunk on a data stream.
+func c06RepairOnWire(p *prepared, ps priorState, tm c06Tamper, tap *verifkit.Tap) bool {
+	var cands []manifest.FileItem
+	for _, it := range p.fileItems() {
+		if len(ps.Marked[it.RelPath]) > 0 {
+			cands = append(cands, it)
+		}
+	}
+	if len(cands) == 0 {
+		return false
+	}
+	it := cands[tm.File%len(cands)]
+	marked := ps.Marked[it.RelPath]
+	idx := uint32(marked[len(marked)-1])
+	h := fnv.New64a()
+	if it.ID != "" {
+		h.Write([]byte(it.ID))
+	} else {
+		h.Write([]byte(it.RelPath))
+	}
+	key := h.Sum64()
+	for k := range tap.Counts() {
+		if k[1] != int(verifkit.AtoB) || k[0] == 0 {
+			continue
+		}
+		for _, fr := range verifnet.ParseData(tap.StreamBytes(k[0], verifkit.AtoB)) {
+			if fr.Key == key && fr.Index == idx {
+				return true
+			}
+		}
+	}
+	return false
+}
+
 func TestVerifC06Transfer(t *testing.T) {
 	rec := verifkit.NewRecorder("C06", "transfer")
 	defer rec.Flush()
@@ -306,7 +341,10 @@ func TestVerifC06Transfer(t *testing.T) {
 		if tm.Delay > 0 {
 			plan = append(plan, perturb{Site: "send.verify.hash.before", Hit: 1, Delay: time.Duration(tm.Delay) * time.Millisecond})
 		}
-		pair, err := p.newPair(nil)
+		tap := &verifkit.Tap{}
+		pair, err := p.newPair(func(int) verifkit.MemOptions {
+			return verifkit.MemOptions{QUICVisibility: x.QUICVis, Window: x.Window, Tap: tap}
+		})
 		if err != nil {
 			rt.Fatalf("pair: %v", err)
 		}
@@ -332,9 +370,18 @@ func TestVerifC06Transfer(t *testing.T) {
 					rec.Class("negative-control/lower-chunk-damage-undetected")
 					return
 				}
+				if tm.Kind == "highest-damaged" && x.HashAlg == "none" {
+					rec.Class("negative-control/hashing-disabled")
+					return
+				}
 				sig := "resume-skipped-data:" + tm.Kind
 				if tm.Kind == "highest-damaged" {
-					sig = "torn-chunk-not-repaired"
+					// the known defect loses a repair chunk that WAS sent (it arrives after the
+					// receiver finalized the file); a sender that never re-sends it is something else
+					sig = "torn-chunk-never-resent"
+					if c06RepairOnWire(p, ps, tm, tap) {
+						sig = "torn-chunk-not-repaired"
+					}
 				}
 				if rec.Fail(rt, sig, "both sides reported success but "+diff+" | "+detail) {
 					return
